@@ -2,7 +2,7 @@
    "per-session invariant over all histories" theorem for the server step. *)
 From Coq Require Import String List NArith ZArith Bool Lia.
 From GoUpf Require Import Bytes FlagsGen ConstsGen HandlerGen Pfcp PfcpBase PfcpSess PfcpClose PfcpTable PfcpDelete
-  PfcpStep PfcpProps PfcpFrame PfcpCat PfcpUsage.
+  PfcpStep PfcpProps PfcpFrame PfcpCat PfcpUsage PfcpRef.
 Import ListNotations.
 Local Open Scope N_scope.
 
@@ -561,3 +561,18 @@ Example create_urr_existing_id_refuted :
   | Fault _ => False
   end.
 Proof. vm_compute. repeat split; reflexivity. Qed.
+
+(* ---------------------------------------------------------------- C12 (a) at the server: a well-formed Modification keeps the counts exact *)
+
+Theorem handle_mod_RefInv w peer seq seid o e s :
+  WInv w -> live w seid s -> RefInv s -> cpdr_wf o s ->
+  exists w' out, handle_mod w peer seq seid IeAbsent o e = Ok (w', out) /\
+    (w' = w \/ exists s', live w' seid s' /\ RefInv s').
+Proof.
+  intros HI HL HR Hwf.
+  destruct (run_categories e o mod_order (mkCtx s (w_dp w) [])) as [[c rs]|] eqn:Ec.
+  - destruct (handle_mod_emits w peer seq seid o e s c rs HI HL Ec) as [w' [o3 [E [L _]]]].
+    exists w', (c_out c ++ o3). split; [exact E|]. right. eexists. split; [exact L|].
+    apply emit_RefInv. apply (run_categories_RefInv e o mod_order (mkCtx s (w_dp w) []) (c, rs) Ec HR mod_order_once Hwf).
+  - exists w, []. split; [|left; reflexivity]. unfold handle_mod. apply lookup_found in HL. rewrite HL, Ec. reflexivity.
+Qed.
